@@ -54,7 +54,14 @@ type Op struct {
 	F        bool   `json:"f,omitempty"`
 	Via      bool   `json:"v,omitempty"`
 	// OpTracer: severities of the collected lines (1..5 of them), package Pkg.
-	Sevs []int `json:"sv,omitempty"`
+	// Echo: the tracer's main line (its last collected line: same text, same
+	// severity, same call site) is additionally logged PLAINLY EchoRep times
+	// (default 1) by the same handler running without a tracer, 1: directly before
+	// the traced run, 2: directly after it. A plain line and a trace are never
+	// identical lines, whatever their text.
+	Sevs    []int `json:"sv,omitempty"`
+	Echo    int   `json:"e,omitempty"`
+	EchoRep int   `json:"er,omitempty"`
 	// OpPkg: package name -> level ("pkga", "pkgb", or an unrelated name).
 	Pkgs map[string]int `json:"pk,omitempty"`
 }
@@ -137,7 +144,9 @@ type Event struct {
 	Times int    // OpLines: number of identical consecutive calls (>=1)
 	Pkg   string // OpTracer
 	Trace []Line // OpTracer: collected lines in order (the last one becomes the main line)
-	Op    Op     // level changes: the original op
+	// OpTracer: number of plain (untraced) calls of the main line before / after the traced run
+	EchoBefore, EchoAfter int
+	Op                    Op // level changes: the original op
 }
 
 func pkgName(p string) string {
@@ -209,6 +218,16 @@ func (e *Expander) Expand(op Op) []Event {
 			ev.Trace = append(ev.Trace, Line{Text: TraceText(e.G, e.next, k), Sev: wrapSev(s), Pkg: ev.Pkg})
 		}
 		e.next++
+		rep := op.EchoRep
+		if rep < 1 {
+			rep = 1
+		}
+		switch op.Echo {
+		case 1:
+			ev.EchoBefore = rep
+		case 2:
+			ev.EchoAfter = rep
+		}
 		return []Event{ev}
 	case OpLevel, OpPkg, OpUnset, OpTrigger, OpYield:
 		return []Event{{Kind: op.K, Op: op}}
@@ -255,6 +274,9 @@ func (s *Scenario) Validate() error {
 				case OpTracer:
 					if len(op.Sevs) < 1 {
 						return fmt.Errorf("phase %d: tracer without lines", pi)
+					}
+					if op.Echo < 0 || op.Echo > 2 || op.EchoRep < 0 {
+						return fmt.Errorf("phase %d: bad echo", pi)
 					}
 				case OpLevel, OpPkg, OpUnset:
 					has = true
